@@ -37,6 +37,10 @@ def obligations(ctx):
             obs.append(ag.api_ob(t, api, 2, 0, avx, tag="n2/"))
         for api in (7, 8, 9):
             obs.append(ag.api_ob(t, api, 2, 0, avx, 2, 2, nrows=2, ncols=3, tag="n2/"))
+    # "no result depends on output contents before the call": the inverse DFT writing over its own input with more output rows than input rows
+    for (rsz, asz) in ((3, 1), (2, 0), (2, 2), (1, 3)):
+        for (nn, avx) in ((4, 0), (8, 1)):
+            obs.append(ag.api_ob(t, 2, nn, 0, avx, rsz, asz, inplace=True, tag="idft-inplace/"))
     obs.append(ag.api_ob(t, 10, 4, 0, 0, rsz=3))
     obs.append(ag.api_ob(t, 10, 4, 1, 1, rsz=3))
     # VMP: both prepared layouts (N<8 and N>=8), rows/cols up to 3 (cols up to 5 for the odd-last-column paths), sizes 0..3(5)
@@ -74,6 +78,9 @@ def obligations(ctx):
         obs.append(core.Ob("leak/q120_ntt_precomp/n=%d" % nn, "leak_ntt.c", "h_leak_ntt", {"NN": nn}, ["q120/q120_ntt.c", "commons.c", "commons_private.c"], unwind=140,
                            flags=["--memory-leak-check"], family="new/delete pairs", timeout=900,
                            desc="q120_new_ntt_bb_precomp / q120_new_intt_bb_precomp executed for real (ceil(log2()) modelled exactly), then the delete functions: no heap object is live at the end"))
+    # NTT120 modules filled / released by the real fill_module_precomp / delete_module_info, two of them alive together (shared with C03)
+    from vf.props import c03
+    obs += c03.two_module_obs(ctx, tag="leak/ntt120-modules/")
     # new_* / delete_* pairs release what they allocate (cbmc --memory-leak-check)
     for kind in (0, 1):
         for (nn, avx) in ((4, 0), (8, 1), (16, 1)):
